@@ -1,4 +1,5 @@
 import AC.Drv.Proto
+import AC.Gen.ProgramFns
 import AC.HelpersX
 /-! driver handler for C19: `c19 <sub-op> <inputs…> <implementation outputs…> <unch>`; `unch` = 1 when the
     harness found every Go argument unmodified after the call. Sub-ops:
@@ -208,6 +209,8 @@ def handleC19x (f : List String) : Res :=
           match pInt val with
           | some o =>
             let r := cmp "index" (toString (index n xs)) val r
+            let r := cmp "translated-index" (match AC.Gen.Program.bigintsIndex n xs with
+              | some o => toString o | none => "panic") val r
             let good := if o == -1 then !(xs.contains n)
               else decide (0 ≤ o) && decide (o.toNat < xs.length) && xs.getD o.toNat 0 == n &&
                 (List.range o.toNat).all fun j => xs.getD j 0 != n
@@ -216,6 +219,8 @@ def handleC19x (f : List String) : Res :=
           | none => bad "c19-index-parse"
         else if op == "contains" then
           let r := cmp "contains" (bs (HX.contains n xs)) val r
+          let r := cmp "translated-contains" (match AC.Gen.Program.bigintsContains n xs with
+            | some o => bs o | none => "panic") val r
           let r := specIf "contains-iff-member" (val == bs (xs.any (· == n))) r
           finish r unch (xs.length ≥ 2) s!"contains,res={val}"
         else
@@ -229,6 +234,8 @@ def handleC19x (f : List String) : Res :=
       | some xs, some x, some o =>
         let r : Res := {}
         let r := cmp "insert" (showInts (insertSortedUnique xs x)) val r
+        let r := cmp "translated-insert" (match AC.Gen.Program.bigintsInsertSortedUnique xs x with
+          | some o => showInts o | none => "panic") val r
         let pre := strictAsc xs
         let r := if pre then
             let r := specIf "insert-sorted-distinct" (strictAsc o) r
@@ -241,6 +248,8 @@ def handleC19x (f : List String) : Res :=
       | some xs, some ys, some o =>
         let r : Res := {}
         let r := cmp "merge" (showInts (mergeUnique xs ys)) val r
+        let r := cmp "translated-merge" (match AC.Gen.Program.bigintsMergeUnique xs ys with
+          | some o => showInts o | none => "panic") val r
         let pre := strictAsc xs && strictAsc ys
         let r := if pre then
             let r := specIf "merge-sorted-distinct" (strictAsc o) r
@@ -284,6 +293,8 @@ def handleC19x (f : List String) : Res :=
         finish r unch (xs.length ≥ 2) s!"sort,already={bs (nonDecr xs)}"
       else if op == "unique" then
         let r := cmp "unique" (showInts (uniq xs)) out r
+        let r := cmp "translated-unique" (match AC.Gen.Program.bigintsUnique xs with
+          | some o => showInts o | none => "panic") out r
         let r := specIf "unique-consecutive-dedup" (o == specUnique xs) r
         let srt := nonDecr xs
         let r := if srt then
